@@ -118,8 +118,12 @@ func cmdVerify(args []string) int {
 			fmt.Println("  ENGINE PANIC:", res.Panic)
 			rc = 1
 		}
+		seenErr := map[string]bool{}
 		for _, s := range res.SpecErrors {
-			fmt.Println("  SPEC ERROR:", s)
+			if !seenErr[s] {
+				fmt.Println("  SPEC ERROR:", s)
+			}
+			seenErr[s] = true
 			rc = 1
 		}
 		for _, s := range res.Abstractions {
@@ -274,24 +278,24 @@ func flagSet(fs *flag.FlagSet, name string) bool {
 }
 
 type checkReport struct {
-	Prop      string
-	Tier      string
-	Seed      int
-	WallS     float64
-	Funcs     []*FuncResult
-	All       []*Obligation
-	Failed    []*Obligation // claimed and failed, not known
-	Known     []*Obligation
-	KnownText map[string]string
-	NotClaimed []*Obligation
-	OtherProp []*Obligation
-	EngineErrors []string
+	Prop             string
+	Tier             string
+	Seed             int
+	WallS            float64
+	Funcs            []*FuncResult
+	All              []*Obligation
+	Failed           []*Obligation // claimed and failed, not known
+	Known            []*Obligation
+	KnownText        map[string]string
+	NotClaimed       []*Obligation
+	OtherProp        []*Obligation
+	EngineErrors     []string
 	dischargedGroups map[string]bool
 	failedGroups     map[string]bool
-	byBackend map[string]int
-	solverMs  int64
-	eng       *Engine
-	missing   []string
+	byBackend        map[string]int
+	solverMs         int64
+	eng              *Engine
+	missing          []string
 }
 
 // propertyFunctions: functions whose contracts carry a clause tagged with the
@@ -606,14 +610,14 @@ func (rep *checkReport) writeEvidence(prop string, violations int) {
 			"functions_inlined":        inl,
 			"paths":                    paths,
 			"trivially_true_obligations_not_sent_to_solver": trivial,
-			"by_backend":               rep.byBackend,
-			"solver_time_s":            float64(rep.solverMs) / 1000,
-			"abstractions":             abstr,
-			"not_claimed":              nc,
-			"known_findings_printed":   kf,
-			"other_property_failures":  op,
-			"engine_errors":            rep.EngineErrors,
-			"samples":                  samples,
+			"by_backend":              rep.byBackend,
+			"solver_time_s":           float64(rep.solverMs) / 1000,
+			"abstractions":            abstr,
+			"not_claimed":             nc,
+			"known_findings_printed":  kf,
+			"other_property_failures": op,
+			"engine_errors":           rep.EngineErrors,
+			"samples":                 samples,
 		},
 		Assumptions: append(append([]string{}, assumed...), abstr...),
 	}
@@ -630,15 +634,15 @@ func (rep *checkReport) writeEvidence(prop string, violations int) {
 // ---------------------------------------------------------------------------
 
 type replayFile struct {
-	Property   string            `json:"property"`
-	Obligation string            `json:"obligation"`
-	Function   string            `json:"function"`
-	Position   string            `json:"position"`
-	Clause     string            `json:"clause"`
-	Kind       string            `json:"kind"`
-	Paths      []replayPath      `json:"paths"`
-	Replay     map[string]any    `json:"replay,omitempty"`
-	Note       string            `json:"note,omitempty"`
+	Property   string         `json:"property"`
+	Obligation string         `json:"obligation"`
+	Function   string         `json:"function"`
+	Position   string         `json:"position"`
+	Clause     string         `json:"clause"`
+	Kind       string         `json:"kind"`
+	Paths      []replayPath   `json:"paths"`
+	Replay     map[string]any `json:"replay,omitempty"`
+	Note       string         `json:"note,omitempty"`
 }
 
 type replayPath struct {
